@@ -369,7 +369,7 @@ static int Convert_mus2midi(uint8_t *in, uint32_t insize,
             case MUSEVENT_PITCHWHEEL:
                 if (cur >= end) goto _end; /* truncated score */
                 status |= 0xE0;
-                bit1 = (*cur & 1) >> 6;
+                bit1 = (*cur & 1) << 6;
                 bit2 = (*cur++ >> 1) & 127;
                 break;
             case MUSEVENT_CHANNELMODE:
